@@ -63,27 +63,54 @@ def phpOrder (sFirst : Bool) : Schemas :=
 
 end W
 
+namespace W
+abbrev OpsCase := List NameOp × Schemas
+abbrev FilterCase := List (String × String) × Schemas
+
+def renameCase : OpsCase := ([renameFoo "foo"], two (ref "Foo"))
+def renameCref : OpsCase := ([renameFoo "Foo"], [sch [enumFoo, obj "Bar" (st [("a", .cref "p" "Foo" (.str "x") {})])]])
+def renameMapIndex : OpsCase := ([renameFoo "Foo"], two (.map (ref "Foo") str {}))
+def renameMapping : OpsCase := ([renameFoo "Foo"], unionS)
+def renameGen : OpsCase := ([renameFoo "Foo"], genS)
+def renameEntry : OpsCase := ([renameFoo "Foo"], entryS)
+def unspecSpec : OpsCase := ([.unspec], specS "spec")
+def unspecMetadata : OpsCase := ([.unspec], specS "metadata")
+def prefixEntry : OpsCase := ([.pfx { pfx := "X" }], entryS)
+def prefixMapIndex : OpsCase := ([.pfx { pfx := "X" }], two (.map (ref "Foo") str {}))
+def prefixGen : OpsCase := ([.pfx { pfx := "X" }], genS)
+def duplicateCross : OpsCase :=
+  ([.duplicate { object := ⟨"p", "Bar"⟩, as_ := ⟨"q", "Bar2"⟩, omitFields := [] }], twoPkg)
+
+def filterMapIndex : FilterCase := ([("p", "Bar")], two (.map (ref "Foo") str {}))
+def filterCref : FilterCase :=
+  ([("p", "Bar")], [sch [enumFoo, obj "Bar" (st [("a", .cref "p" "Foo" (.str "x") {})])]])
+def filterMapping : FilterCase :=
+  ([("p", "Bar")], [sch [obj "Foo" (st [("kind", str)]),
+    obj "Bar" (.disj [st [("kind", str)], str] { discriminator := "kind", mapping := [("foo", "Foo")] } {})]])
+def filterGen : FilterCase :=
+  ([("p", "Bar")], [sch [obj "Foo" (st [("kind", str)]), obj "Bar" (.struct [] [ref "Foo"] (some ("disjunction_of_refs", {})) {})]])
+def filterEntry : FilterCase := ([("p", "Bar")], entryS)
+end W
+
 open W in
 def witnesses : List Witness := [
-  ⟨"rename-case", .nameops [renameFoo "foo"] (two (ref "Foo"))⟩,
-  ⟨"rename-cref", .nameops [renameFoo "Foo"] [sch [enumFoo, obj "Bar" (st [("a", .cref "p" "Foo" (.str "x") {})])]]⟩,
-  ⟨"rename-mapindex", .nameops [renameFoo "Foo"] (two (.map (ref "Foo") str {}))⟩,
-  ⟨"rename-mapping", .nameops [renameFoo "Foo"] unionS⟩,
-  ⟨"rename-gen", .nameops [renameFoo "Foo"] genS⟩,
-  ⟨"rename-entrypoint", .nameops [renameFoo "Foo"] entryS⟩,
-  ⟨"unspec-spec", .nameops [.unspec] (specS "spec")⟩,
-  ⟨"unspec-metadata", .nameops [.unspec] (specS "metadata")⟩,
-  ⟨"prefix-entrypoint", .nameops [.pfx { pfx := "X" }] entryS⟩,
-  ⟨"prefix-mapindex", .nameops [.pfx { pfx := "X" }] (two (.map (ref "Foo") str {}))⟩,
-  ⟨"prefix-gen", .nameops [.pfx { pfx := "X" }] genS⟩,
-  ⟨"duplicate-mapping-crosspkg", .nameops [.duplicate { object := ⟨"p", "Bar"⟩, as_ := ⟨"q", "Bar2"⟩, omitFields := [] }] twoPkg⟩,
-  ⟨"filter-mapindex", .filter [("p", "Bar")] (two (.map (ref "Foo") str {}))⟩,
-  ⟨"filter-cref", .filter [("p", "Bar")] [sch [enumFoo, obj "Bar" (st [("a", .cref "p" "Foo" (.str "x") {})])]]⟩,
-  ⟨"filter-mapping", .filter [("p", "Bar")]
-    [sch [obj "Foo" (st [("kind", str)]), obj "Bar" (.disj [st [("kind", str)], str] { discriminator := "kind", mapping := [("foo", "Foo")] } {})]]⟩,
-  ⟨"filter-gen", .filter [("p", "Bar")]
-    [sch [obj "Foo" (st [("kind", str)]), obj "Bar" (.struct [] [ref "Foo"] (some ("disjunction_of_refs", {})) {})]]⟩,
-  ⟨"filter-entrypoint", .filter [("p", "Bar")] entryS⟩,
+  ⟨"rename-case", .nameops renameCase.1 renameCase.2⟩,
+  ⟨"rename-cref", .nameops renameCref.1 renameCref.2⟩,
+  ⟨"rename-mapindex", .nameops renameMapIndex.1 renameMapIndex.2⟩,
+  ⟨"rename-mapping", .nameops renameMapping.1 renameMapping.2⟩,
+  ⟨"rename-gen", .nameops renameGen.1 renameGen.2⟩,
+  ⟨"rename-entrypoint", .nameops renameEntry.1 renameEntry.2⟩,
+  ⟨"unspec-spec", .nameops unspecSpec.1 unspecSpec.2⟩,
+  ⟨"unspec-metadata", .nameops unspecMetadata.1 unspecMetadata.2⟩,
+  ⟨"prefix-entrypoint", .nameops prefixEntry.1 prefixEntry.2⟩,
+  ⟨"prefix-mapindex", .nameops prefixMapIndex.1 prefixMapIndex.2⟩,
+  ⟨"prefix-gen", .nameops prefixGen.1 prefixGen.2⟩,
+  ⟨"duplicate-mapping-crosspkg", .nameops duplicateCross.1 duplicateCross.2⟩,
+  ⟨"filter-mapindex", .filter filterMapIndex.1 filterMapIndex.2⟩,
+  ⟨"filter-cref", .filter filterCref.1 filterCref.2⟩,
+  ⟨"filter-mapping", .filter filterMapping.1 filterMapping.2⟩,
+  ⟨"filter-gen", .filter filterGen.1 filterGen.2⟩,
+  ⟨"filter-entrypoint", .filter filterEntry.1 filterEntry.2⟩,
   ⟨"php-inline-order", .chain "php" (phpOrder true)⟩
 ]
 
